@@ -1,4 +1,5 @@
 #!/bin/bash
+export GOVC_EVIDENCE_DIR=/tmp/wt/evidence-scratch
 # seed_recheck.sh [seed dirs...]: apply each seeded change to /repo, run the check of its property, undo; record the outcome
 cd /verif
 DIRS="$@"; [ -z "$DIRS" ] && DIRS=$(ls -d /verif/seeded/*/)
